@@ -185,7 +185,18 @@ def run(ctx):
             def foreign(t):
                 e = at(ctx, stop, t.id, t.stmt.test if t.kind == "test" else t.stmt.iter)
                 own = "self." + a
-                return [c for c in chains_in(e) if c != "self" and not (c == own or c.startswith(own + "."))]
+                out_ = []
+                for c in chains_in(e):
+                    if c == "self" or c == own or c.startswith(own + "."):
+                        continue
+                    root_ = c.split(".")[0]
+                    if root_ != "self":
+                        # a local that holds what the handle attribute held (read-then-clear swap, plain copy)
+                        og_ = value_origins(cst, t.id, ast.Name(id=root_, ctx=ast.Load()), params=stop.params) or []
+                        if og_ and all(norm(e_) == own for _d, e_ in og_):
+                            continue
+                    out_.append(c)
+                return out_
             other = sorted({norm(t.stmt.test if t.kind == "test" else t.stmt.iter) for t, lab in deps if foreign(t)})
             if other:
                 ok = False
@@ -514,7 +525,7 @@ def run(ctx):
         n, "_shuttingdown"), ast.Constant) and node_assign_value(n, "_shuttingdown").value is True]
     # the closures of shutdown(), by role: the commit-and-stop step is the one that calls self.commit(); the success
     # and failure continuations are the callback / errback it registers on that commit
-    cass = [g for g in shutdown.nested.values() if any(call_recv(c) == "self" for c in calls_in(g, "commit"))]
+    cass = [g for g in role_candidates(ctx, shutdown) if any(call_recv(c) == "self" for c in calls_in(g, "commit"))]
     cas = cass[0] if len(cass) == 1 else None
     ok_s = fail_h = None
     if cas is not None:
@@ -523,13 +534,13 @@ def run(ctx):
                 ok_s = prog.resolve_callable(cas, g["cb"])
                 fail_h = prog.resolve_callable(cas, g["eb"])
     need(cas and ok_s, "shutdown helpers missing")
-    uses = [n for n in csd.nodes if any(call_name(c) == cas.name or any(
-        isinstance(a, ast.Name) and a.id == cas.name for a in c.args) for c in n.calls())]
+    uses = [n for n in csd.nodes if any(prog.resolve_call(shutdown, c) is cas or any(
+        isinstance(a, (ast.Name, ast.Attribute)) and prog.resolve_callable(shutdown, a) is cas for a in c.args) for c in n.calls())]
     r.check(bool(flag) and uses and all(csd.dominates([flag[0].id], u.id) for u in uses), "%s#flag-first" % shutdown.qname,
             "_shuttingdown is not set before the commit-and-stop step is started or registered", where(shutdown, shutdown.node))
     fsd = ctx.facts(shutdown)
     waits = [u for u in uses if any(call_name(c) == "addCallback" and call_recv(c) == "self._processor_d" for c in u.calls())]
-    direct = [u for u in uses if any(call_name(c) == cas.name for c in u.calls())]
+    direct = [u for u in uses if any(prog.resolve_call(shutdown, c) is cas for c in u.calls())]
     r.check(bool(waits) and bool(direct) and all(known_falsy(fsd[u.id], "self._processor_d") for u in direct),
             "%s#waits-for-processor" % shutdown.qname,
             "commit-and-stop can run while the processor is still working on a block", where(shutdown, shutdown.node),
@@ -551,18 +562,16 @@ def run(ctx):
     # commit() may skip the request only when nothing was processed or processed == committed
     cm = ctx.func(CONS + ".commit")
     ccm = ctx.cfg(cm)
-    sc_ret = [n for n in ccm.nodes if n.kind == "stmt" and isinstance(n.stmt, ast.Return) and isinstance(n.stmt.value, ast.Call) and
-              call_name(n.stmt.value) == "succeed"]
+    # wherever commit() answers at once with success (`succeed(...)`, returned directly or through a local), the guard
+    # facts imply "nothing processed" or "processed == committed" - in whatever form the test is written
+    fcm = ctx.facts(cm)
+    sc_ret = [n for n in ccm.nodes if any(call_name(c) == "succeed" for c in n.calls())]
     okc = bool(sc_ret)
     for n in sc_ret:
-        tests = [t for t, lab in ccm.control_deps(n.id) if t.kind == "test"]
-        okc = okc and len(tests) == 1
-        if tests:
-            tt = at(ctx, cm, tests[0].id, tests[0].stmt.test)
-            vals = tt.values if isinstance(tt, ast.BoolOp) and isinstance(tt.op, ast.Or) else [tt]
-            texts = sorted(norm(v) for v in vals)
-            okc = okc and texts in (sorted(["self._last_processed_offset is None", "self._last_processed_offset == self._last_committed_offset"]),
-                                    sorted(["self._last_processed_offset is None", "self._last_committed_offset == self._last_processed_offset"]))
+        imp = False
+        for eq in ("self._last_processed_offset == self._last_committed_offset", "self._last_committed_offset == self._last_processed_offset"):
+            imp = imp or facts_imply(prog, cm, fcm[n.id], {"a": "self._last_processed_offset is None", "b": eq}, lambda env: env["a"] or env["b"])
+        okc = okc and imp
     r.check(okc, "%s#skip-only-when-equal" % cm.qname,
             "commit() skips the request under a condition other than `nothing processed or processed == committed`", where(cm, cm.node),
             "consumer rewound below the committed offset (restart further back / offset reset): shutdown reports success without "
@@ -669,8 +678,13 @@ def run(ctx):
     r.check(bool(sched) and all(("self._shuttingdown", False) in frf[n.id] for n in sched), "%s#gated-by-shuttingdown" % rf.qname,
             "refetch is scheduled although a graceful shutdown was requested", where(rf, rf.node))
     pm = ctx.func(CONS + "._process_messages")
-    loops = [x for x in walk_body_shallow(pm.body) if isinstance(x, ast.While)]
-    r.check(bool(loops) and "not self._shuttingdown" in norm(loops[0].test), "%s#loop-gated" % pm.qname,
+    # every invocation of the processor is made with `_shuttingdown` just tested false (facts about attributes do not
+    # survive the suspension of the previous block, so the test is made anew for every block, however the loop is written)
+    cpm = ctx.cfg(pm)
+    fpm = ctx.facts(pm)
+    invs = [n for n in cpm.nodes if any((call_name(c) in ("maybeDeferred", "execute") and c.args and norm(c.args[0]) == "self.processor") or
+                                        norm(c.func) == "self.processor" for c in n.calls())]
+    r.check(bool(invs) and all(("self._shuttingdown", False) in fpm[n.id] or ("not self._shuttingdown", True) in fpm[n.id] for n in invs), "%s#loop-gated" % pm.qname,
             "the feeder loop does not stop handing out blocks once shutdown was requested", where(pm, pm.node))
 
     # ---- R7 fired timer handles are cleared (stop() cancels them unguarded)
